@@ -384,6 +384,18 @@ func cmdMsg(o opts) {
 				}
 				d.enc(di, vals, true, "snan")
 				d.enc(di, vals, false, "snan")
+				// negative zero: only the sign bit set (equal to 0 in a float comparison, not on the wire); alone in the
+				// last element it is also the payload's last non-zero byte
+				nz := cloneVals(zero)
+				for k := range nz[i] {
+					b := make(B, s.gosize)
+					if k%2 == 0 || k == len(nz[i])-1 {
+						b[s.gosize-1] = 0x80
+					}
+					nz[i][k] = b
+				}
+				d.enc(di, nz, true, "negzero")
+				d.enc(di, nz, false, "negzero")
 			}
 			// one field (and array element) at a time, distinct non-zero bytes; others zero
 			for i, s := range sh {
